@@ -118,3 +118,141 @@ contract(module="coco.rattoppm", qualname="convert", tag="C19",
                   known=[dict(finding="KF-C19-RAT-run-overshoot", when="ii < 0")]),
          ],
          raises=[dict(id="loud", exc="*", allowed="True")])
+
+# ------------------------------------------------------------------ coco.mgetoppm
+MGE_PARAMS = dict(input_image_stream="instream", output_image_stream="outstream")
+MGE_N = 160 * 200
+MGE_HDR = "hdr == fmt('P6\\n320 200\\n255\\n')"
+MGE_WELLFORMED_HEADER = ["L >= 51", "inp[0] == 0", "exists(19, 49, lambda j: inp[j] == 0)",
+                         "inp[17] == 0 or forall(1, 17, lambda j: inp[j] < 64)"]
+contract(module="coco.mgetoppm", qualname="convert.dmp500", **DUMP)
+contract(module="coco.mgetoppm", qualname="convert.dmp500", tag="C19", **DUMP_LOUD)
+MGE_PX_RAW = "forall(0, {K}, lambda j: byte16_at(out, 6*j, mge_palette(inp), inp[51 + j]))"
+contract(module="coco.mgetoppm", qualname="convert", tag="C16", also=["C18"],
+         params=MGE_PARAMS,
+         # uncompressed MGE: compression byte (offset 18) non-zero, 32000 image bytes follow the 51-byte header
+         requires=MGE_WELLFORMED_HEADER + ["inp[18] != 0", "L >= 51 + %d" % MGE_N],
+         loops={
+             3: dict(inv=["pos == 51 + jj", "n == 6*jj", MGE_PX_RAW.format(K="jj")]),
+             4: dict(inv=[], decreases="L - pos"),
+         },
+         ensures=[dict(id="header", post=MGE_HDR, props=["C16", "C18"]),
+                  dict(id="length", post="n == 3*320*200", props=["C16", "C18"]),
+                  dict(id="pixels", post=MGE_PX_RAW.format(K=MGE_N), props=["C16"])],
+         raises=[])
+MGE_PX_RLE = "forall(0, {K}, lambda j: byte16_at(out, 6*j, mge_palette(inp), img[j]))"
+contract(module="coco.mgetoppm", qualname="convert", tag="C17", also=["C18"],
+         params=MGE_PARAMS,
+         # run-length MGE: compression byte 0; "valid encoding of img": pairs (count > 0, value) each denoting count
+         # copies of value, never running past the 32000th byte, then a count of 0 exactly when the image is full
+         requires=MGE_WELLFORMED_HEADER + ["inp[18] == 0"],
+         ghost_entry="img = seq(%d)\nm = 0\ncnt = 0\nval = 0" % MGE_N,
+         loops={
+             1: dict(ghost_vars=["img", "m", "cnt", "val"],
+                     ghost_body_start="""
+assume(pos < L)
+cnt = inp[pos]
+val = inp[pos + 1]
+assume(implies(cnt == 0, m == %d))
+assume(implies(cnt != 0, pos + 1 < L and m + cnt <= %d))
+if cnt != 0:
+    img = fill(img, m, m + cnt, val)
+    m = m + cnt
+""" % (MGE_N, MGE_N),
+                     inv=["y == %d - m" % MGE_N, "n == 6*m", "0 <= m", "m <= %d" % MGE_N, "pos >= 51", MGE_PX_RLE.format(K="m")],
+                     decreases="L - pos"),
+             2: dict(inv=["b == cnt", "a == val", "cnt >= 1", "y == %d - (m - cnt) - jj" % MGE_N, "n == 6*(m - cnt + jj)",
+                          "forall(m - cnt, m, lambda j: img[j] == val)", MGE_PX_RLE.format(K="m - cnt + jj")]),
+             4: dict(inv=[], decreases="L - pos"),
+         },
+         ensures=[dict(id="header", post=MGE_HDR, props=["C17", "C18"]),
+                  dict(id="length", post="n == 3*320*200", props=["C17", "C18"]),
+                  dict(id="pixels", post=MGE_PX_RLE.format(K=MGE_N), props=["C17"])],
+         raises=[])
+contract(module="coco.mgetoppm", qualname="convert", tag="C19",
+         params=MGE_PARAMS, requires=[], check_termination=True,
+         loops={
+             1: dict(inv=["n == 6*(%d - y)" % MGE_N], decreases="L - pos"),
+             2: dict(inv=["n == 6*(%d - y)" % MGE_N]),
+             3: dict(inv=["n == 6*jj"]),
+             4: dict(inv=[], decreases="L - pos"),
+         },
+         ensures=[dict(id="header", post=MGE_HDR),
+                  dict(id="complete", post="n == 3*320*200",
+                       known=[dict(finding="KF-C19-MGE-early-terminator", when="inp[18] == 0 and y > 0"),
+                              dict(finding="KF-C19-MGE-tokens-after-full", when="inp[18] == 0 and y < 0")])],
+         raises=[dict(id="exit-nonzero", exc="SystemExit", allowed="exit_code != 0"),
+                 dict(id="loud", exc="TypeError", allowed="True"), dict(id="loud", exc="IndexError", allowed="True"),
+                 dict(id="loud", exc="ValueError", allowed="True")])
+
+# ------------------------------------------------------------------ coco.veftopng.unsquash
+# Squashed VEF record (from the format description in the property): a count byte above 128 repeats the next
+# byte count-128 times; a count byte up to 128 copies that many following bytes; the record is cut to its
+# nominal length.  `exp`/`e` are the ghost expansion.
+UNSQ_GHOST = """
+cb = data[i]
+gi = i
+if cb > 128:
+    glen = cb - 128
+    exp = fill(exp, e, e + glen, data[i + 1])
+    used = 2
+else:
+    glen = cb
+    exp = copy(exp, e, data, i + 1, cb)
+    used = 1 + cb
+e = e + glen
+"""
+UNSQ_EQ = "forall(0, len(decomp_data), lambda j: decomp_data[j] == exp[j])"
+contract(module="coco.veftopng", qualname="unsquash", tag="C17", also=["C19"],
+         params=dict(data="bytes_list", count="int", orig_len="int"),
+         requires=["count >= 0", "orig_len >= 0", "count <= len(data)"],
+         ghost_entry="exp = seq(0)\ne = 0\ncb = 0\ngi = 0\nglen = 0\nused = 0",
+         loops={
+             0: dict(ghost_vars=["exp", "e", "cb", "gi", "glen", "used"],
+                     ghost_body_start=UNSQ_GHOST + "assume(i + used <= count)\n",   # valid record: groups do not straddle its end
+                     inv=["i >= 0", "i <= count", "e >= 0", "len(decomp_data) == e", UNSQ_EQ],
+                     decreases="count - i"),
+             1: dict(inv=["cb > 128", "i == gi + 1", "count_byte >= 0", "count_byte <= glen", "len(decomp_data) == e - count_byte",
+                          "forall(e - glen, e, lambda j: exp[j] == data[i])", UNSQ_EQ],
+                     decreases="count_byte"),
+             2: dict(inv=["cb <= 128", "count_byte == cb", "j >= 0", "j <= count_byte", "i == gi + 1 + j", "len(decomp_data) == e - glen + j",
+                          "forall(e - glen, e, lambda k: exp[k] == data[gi + 1 + k - (e - glen)])", UNSQ_EQ],
+                     decreases="count_byte - j"),
+         },
+         ensures=[dict(id="length", post="len(result) == ite(orig_len < e, orig_len, e)", props=["C17", "C19"]),
+                  dict(id="content", post="forall(0, len(result), lambda j: result[j] == exp[j])", props=["C17"])],
+         raises=[])
+
+# ------------------------------------------------------------------ coco.pixtopgm
+contract(module="coco.pixtopgm", qualname="convert", tag="C19", also=["C18"],
+         params=dict(input_image_stream="instream", output_image_stream="outstream"), requires=[],
+         loops={0: dict(inv=[]), 1: dict(inv=[])},
+         ensures=[dict(id="header", post="hdr == fmt('P5\\n{} {}\\n255\\n', side, side)", props=["C18", "C19"]),
+                  dict(id="side", post="side >= 0 and side*side <= 2*L and 2*L < (side+1)*(side+1)", props=["C18"]),
+                  dict(id="complete", post="n == side*side", props=["C18", "C19"],
+                       known=[dict(finding="KF-C19-PIX-non-square-size", when="side*side != 2*L")])],
+         raises=[dict(id="loud", exc="*", allowed="True")])
+
+# ------------------------------------------------------------------ coco.maxtoppm
+MAX_PARAMS = dict(input_image_stream="instream", output_image_stream="outstream", arte=("lazyenum", [0, 3, 4, 5, 6, 7, 8]),
+                  newsroom="bool", cols="int", rows="optint", skip="optint", ignore_header_errors="bool")
+MAX_REQ = ["cols >= 1", "rows is None or rows >= 1", "skip is None or skip >= 0"]   # the validators' ranges
+MAX_GHOST_ENTRY = "cols0 = cols\nrows0 = rows\nbase = 0 if skip is None else ite(skip < L, skip, L)\ndstart = 0\ncw = 0\nrs = 0"
+contract(module="coco.maxtoppm", qualname="convert", tag="C19", also=["C18"],
+         params=MAX_PARAMS, requires=MAX_REQ, ghost_entry=MAX_GHOST_ENTRY,
+         loops={
+             0: dict(ghost_before="dstart = pos\ncw = cols // 8", ghost_vars=["rs"], ghost_body_start="rs = pos",
+                     lemmas=["cw*(jj+1) == cw*jj + cw", "cw >= 0", "implies(jj >= 0, cw*jj >= 0)",
+                             "implies(cols % 8 == 0, cols*rows == 8*(cw*rows))"],
+                     inv=["n == 24*(pos - dstart)", "pos <= dstart + cw*jj", "pos == dstart + cw*jj or pos == L", "rows >= 0 or jj == 0"]),
+             1: dict(counter="bi", inv=["n == 24*(rs - dstart) + 24*bi"]),
+         },
+         ensures=[dict(id="header", when="result == True", props=["C18", "C19"],
+                       post="hdr == fmt('P6\\n{} {}\\n255\\n', max_w(newsroom, cols0, inp, base), max_h(newsroom, cols0, rows0, inp, base))"),
+                  dict(id="complete", when="result == True", props=["C18", "C19"],
+                       post="n == 3*(cols*rows)",
+                       known=[dict(finding="KF-C18-MAX-width-not-multiple-of-8", when="cols % 8 != 0"),
+                              dict(finding="KF-C19-MAX-short-rows", when="cols % 8 == 0 and pos - dstart < cw*rows")]),
+                  dict(id="result-is-bool", post="result == True or result == False", props=["C19"])],
+         lemmas=[],
+         raises=[dict(id="loud", exc="*", allowed="True")])
